@@ -62,7 +62,7 @@ class Gen:
             if r.random() < 0.4:
                 self.save(name, pw=PWS[name])                   # re-created
         elif k < 0.75:
-            self.ev.append([2, r.choice([1, 60, 7199, 7200, 7201, 10000, 604799, 604800, 700000])])
+            self.ev.append([2, r.choice([1, 60, 7000, 7200, 7201, 10000, 604000, 604800, 700000])])
         elif k < 0.85 and self.issued:
             self.ev.append([4, R(r.randrange(len(self.issued)))]); self.issued.append(None)
         elif k < 0.92:
@@ -392,8 +392,8 @@ REGRESSIONS = [
     [_env, [[5], [6, 0, 2, "/p/q", _c("ann")], [6, 0, 4, "/p/q", _c("ann")], [0, "ann", PWS["ann"], 0, "/zz", "/x", 0], [6, 0, 6, "/p/q", _c("ann")],
             [0, "ann", PWS["ann"], 0, "/p/q", "/x", 0], [6, 0, 6, "/p/q", _c("ann")], [3, "root", PWS["root"]], [10, 0, "/p/q", A(0), 0]]],
     # tokens: superseded, refresh-as-access, expiry on both clocks, deleted user, roles
-    [_env, [[3, "bob", PWS["bob"]], [4, R(0)], [10, 0, "/a/b", A(0), 0], [10, 0, "/a/b", A(1), 0], [10, 0, "/a/b", R(1), 0], [4, A(1)], [2, 7199],
-            [10, 1, "/a/b", A(1), 0], [2, 1], [10, 1, "/a/b", A(1), 0], [4, R(1)], [11, 1, A(2), _u("bob", 0, "", ""), 0, "bob"],
+    [_env, [[3, "bob", PWS["bob"]], [4, R(0)], [10, 0, "/a/b", A(0), 0], [10, 0, "/a/b", A(1), 0], [10, 0, "/a/b", R(1), 0], [4, A(1)], [2, 7000],
+            [10, 1, "/a/b", A(1), 0], [2, 200], [10, 1, "/a/b", A(1), 0], [4, R(1)], [11, 1, A(2), _u("bob", 0, "", ""), 0, "bob"],
             [3, "root", PWS["root"]], [11, 1, A(3), _u("bob", 0, "", ""), 0, "bob"], [11, 0, A(2), _u("bob", 0, "", ""), 0, "bob"],
             [2, 604800], [4, R(2)], [4, R(3)]]],
 ]
